@@ -383,12 +383,28 @@ theorem rtu_rsp_encode_decode_fixed (slave : UInt8) (r : Response) (hf : r.Fixed
   rw [h5] at h1 h3
   exact ⟨out, h1, h3, h4⟩
 
+/-- **Read Exception Status** (`07 s`, two bytes — the one RTU-only response kind encoder and decoder
+    implement) like any fixed-layout kind: every status byte, every slave id, every buffer of at least five
+    bytes; the very same value comes back -/
+theorem rtu_rsp_encode_decode_read_exception_status (slave s : UInt8) (buf : Bytes) (hb : 5 ≤ buf.length) :
+    ∃ out, Rtu.serverEncodeResponse slave (.ok (.readExceptionStatus s)) buf = .ok (5, out) ∧
+      out.take 5 = Spec.rtuFrame slave [0x07, s] ∧
+      Rtu.clientDecodeResponse (out.take 5) = .ok (some (slave, .ok (.readExceptionStatus s))) ∧
+      Rtu.clientDecodeResponse out = .ok (some (slave, .ok (.readExceptionStatus s))) := by
+  have hi : (Response.readExceptionStatus s).image = [0x07, s] := rfl
+  have hd : Response.decode (Response.readExceptionStatus s).image = .ok (.readExceptionStatus s) := by
+    rw [hi]; simp [Response.decode, idx, minResponsePduLen, show FunctionCode.new 0x07 = .readExceptionStatus from by decide]
+  obtain ⟨out, h1, h2, h3, h4⟩ := rtu_rsp_encode_decode slave (.readExceptionStatus s) (.readExceptionStatus s) buf
+    ⟨trivial, by rw [hi]; simp⟩ (by rw [hi]; exact hb)
+    (rtu_rsp_frameable _ trivial trivial) (exc_decode_err_of_lt _ 0x07 rfl (by decide)) hd
+  exact ⟨out, h1, h2, h3, h4⟩
+
 /-- **custom responses, no PDU-level hypothesis left**: a custom function code below 0x80 that the
-    response table knows and that is not one of the nine modelled kinds (0x07, 0x0B, 0x0C, 0x16, 0x18)
+    response table knows and that is not one of the ten kinds the response decoder models (0x0B, 0x0C, 0x16, 0x18; 0x07 is a modelled kind now)
     comes back as `Custom(FunctionCode::new(code), data)` — the same code and the same data -/
 theorem rtu_rsp_roundtrip_custom (slave : UInt8) (fc : FunctionCode) (d : Bytes)
     (hc : Spec.PduComplete .rsp (Response.custom fc d).image)
-    (hlt : fc.value < 0x80) (hm : fc.value ∉ modelledReqCodes) (rest : Bytes) :
+    (hlt : fc.value < 0x80) (hm : fc.value ∉ modelledRspCodes) (rest : Bytes) :
     Rtu.clientDecodeResponse (Spec.rtuFrame slave (Response.custom fc d).image ++ rest) =
       .ok (some (slave, .ok (.custom (FunctionCode.new fc.value) d))) ∧
     (Response.custom (FunctionCode.new fc.value) d).sem = (Response.custom fc d).sem := by
@@ -400,7 +416,7 @@ theorem rtu_rsp_roundtrip_custom (slave : UInt8) (fc : FunctionCode) (d : Bytes)
 /-! non-vacuity: a read-holding-registers response, a coil response (meaning padded), a fixed kind,
     a custom PDU with a 16-bit count (0x18, read FIFO queue) -/
 example : Spec.PduComplete .rsp (Response.custom (.custom 0x18) [0x00, 0x02, 0xAA, 0xBB]).image ∧
-    (FunctionCode.custom 0x18).value < 0x80 ∧ (FunctionCode.custom 0x18).value ∉ modelledReqCodes := by
+    (FunctionCode.custom 0x18).value < 0x80 ∧ (FunctionCode.custom 0x18).value ∉ modelledRspCodes := by
   unfold Spec.PduComplete; decide +kernel
 example : Rtu.clientDecodeResponse (Spec.rtuFrame 0x03 (Response.readHoldingRegisters ⟨[0x12, 0x34, 0x56, 0x78], 2⟩).image ++ [0x99]) =
     .ok (some (0x03, .ok (.readHoldingRegisters ⟨[0x12, 0x34, 0x56, 0x78], 2⟩))) :=
